@@ -1136,6 +1136,10 @@ pub struct Timed {
     pub pre_delay: Option<(String, u64)>,
     /// a malformed frame of the given class (see Client::malformed) sent at second `at` of the configuration phase
     pub bad: Option<(u64, String)>,
+    /// the client sends its Client Information once more at this second (settings changed while it waits)
+    pub info2: Option<u64>,
+    /// the scheduler is busy when second `at` comes: the clock is `ms` milliseconds past it before anything due then is handled
+    pub late: Option<(u64, u64)>,
 }
 
 impl Timed {
@@ -1154,6 +1158,8 @@ impl Timed {
             pipeline: v.get("pipeline").and_then(|p| p.as_u64()).map(|k| k as usize),
             pre_delay: v.get("preDelay").and_then(|p| Some((p["frame"].as_str()?.to_string(), p["secs"].as_u64()?))),
             bad: v.get("bad").and_then(|p| Some((p["at"].as_u64()?, p["class"].as_str()?.to_string()))),
+            info2: v.get("info2").and_then(|p| p.as_u64()),
+            late: v.get("late").and_then(|p| Some((p["at"].as_u64()?, p["ms"].as_u64()?))),
         }
     }
 }
@@ -1231,6 +1237,7 @@ pub async fn run_round(
     settle().await;
     cl.drain(ms(t0));
     let mut closed = false;
+    let untimed = timed.is_none();
     match timed {
         None => {
             for ev in events {
@@ -1324,6 +1331,10 @@ pub async fn run_round(
             if let Some((at, class)) = &tm.bad {
                 actions.push((*at, json!({"k": "Malformed", "class": class})));
             }
+            if let Some(at) = tm.info2 {
+                actions.push((at, json!({"k": "ClientInfo", "locale": tm.locale})));
+            }
+            let mut late_done = false;
             let mut pending_rest: Option<(u64, Vec<u8>, Value)> = None; // (deliver at, bytes, frame)
             let mut seg_used = false;
             let mut seen_tx = 0usize;
@@ -1412,7 +1423,14 @@ pub async fn run_round(
                 if server.is_finished() || now_s > tm.horizon {
                     break;
                 }
-                tokio::time::sleep(Duration::from_millis(500)).await;
+                match tm.late {
+                    Some((at, by)) if !late_done && now_ms + 500 >= at * 1000 && now_ms < at * 1000 => {
+                        // jump over second `at`: everything due then is handled `by` ms late (and in one go)
+                        late_done = true;
+                        tokio::time::advance(Duration::from_millis(at * 1000 + by - now_ms)).await;
+                    }
+                    _ => tokio::time::sleep(Duration::from_millis(500)).await,
+                }
             }
             if stall_on {
                 end.release_write();
@@ -1424,6 +1442,26 @@ pub async fn run_round(
     // the model says the connection has ended by now, of its own accord
     let hang = !server.is_finished();
     let mut ran_after_eof = false;
+    if hang && !closed && untimed {
+        // ... but the handler is still there: a client that carries on as if nothing had happened (a pinger that pipelines its Ping, a client
+        // that answers the next request) shows what the handler does next -- whatever it sends now is recorded and judged like the rest
+        let probe = match cl.stage {
+            Stage::Ping => Some(json!({"k": "Ping", "payload": "p0", "probe": true})),
+            Stage::SessCookie => Some(json!({"k": "LoginCookieResponse", "which": "session", "v": "absent", "probe": true})),
+            Stage::AuthCookie => Some(json!({"k": "LoginCookieResponse", "which": "auth", "v": "absent", "probe": true})),
+            Stage::LoginAck => Some(json!({"k": "LoginAck", "probe": true})),
+            Stage::Config => Some(json!({"k": "ClientInfo", "locale": "en_US", "probe": true})),
+            _ => None,
+        };
+        if let Some(f) = probe {
+            if let Action::Send(b) = cl.build(&f) {
+                cl.push(json!({"e": "rx", "f": f, "t": ms(t0)}));
+                end.push(&b);
+                settle().await;
+                cl.drain(ms(t0));
+            }
+        }
+    }
     if hang {
         if !closed {
             end.close();
